@@ -374,6 +374,29 @@ pub fn gen_wasm(rng: &mut Rng, thorough: bool) -> Vec<String> {
         ctx.insts += 1;
         observe(&mut ops);
         ops.push("q-info c1_3".into());
+    } else if rng.chance(1, 7) {
+        // a contract WITHOUT a reply entry point (code K, the fourth instance) dispatching a sub-message that fails and is
+        // sent with reply_on error / always: nobody can absorb the failure, the call fails; an outer contract may catch it
+        let k = ctx.codes + 1;
+        let bare = format!("c{}_3", k);
+        ops.push(format!("bindc {} {}", k, hex(&crate::wasm::default_checksum(k))));
+        ops.push("store-n".into());
+        ops.push(format!("bind {} {}", bare, crate::wasm::classic_addr(&App::default(), k, 3)));
+        ops.push(format!("exec u1 (inst {} ((w 6b 01)) - bare u1 ~)", k));
+        let mode = rng.pick(&["error", "always"]);
+        ctx.sub_id += 3;
+        ops.push("rawhash".into());
+        ops.push(format!("exec-bare u1 (exec {} ((w 6e0a 01) (sub {} {} () (send u2 100000:d1))) -)", bare, ctx.sub_id - 2, mode));
+        observe(&mut ops);
+        ops.push("rawhash".into());
+        ops.push(format!(
+            "exec-bare u1 (exec c1_0 ((w 6e0b 01) (sub {} error ((attr caught 1)) (exec {} ((w 6e0c 01) (sub {} {} () (send u2 100000:d1))) -))) -)",
+            ctx.sub_id - 1, bare, ctx.sub_id, mode
+        ));
+        observe(&mut ops);
+        ops.push(format!("wasm-sudo {} ((attr s 1))", bare));
+        ops.push("trace".into());
+        ctx.insts += 1;
     }
     if rng.chance(1, 6) {
         // supply asked, then a burn (by a user / by a contract through a caught or uncaught failing branch) inside a
